@@ -71,6 +71,14 @@ func DefaultInitAllow(path string) bool {
 	return false
 }
 
+// MetaInitAllow is DefaultInitAllow plus the meta package (whose registry needs reflection).
+func MetaInitAllow(path string) bool {
+	if path == "github.com/cloudwego/thriftgo/generator/golang/extension/meta" {
+		return true
+	}
+	return DefaultInitAllow(path)
+}
+
 // AddOverlayDir adds the .go files of dir to the overlay. Each file names its target
 // directory (relative to root) in a line "//zz:target <dir>".
 func AddOverlayDir(overlay map[string][]byte, root, dir string) error {
